@@ -156,6 +156,18 @@ func runBLRP(sc *Scenario, res *Result) {
 		r.SetBody(otellog.IntValue(i))
 		p.OnEmit(ctx, &r)
 	}
+	if sc.Probe {
+		// was an export triggered by the queue length alone? (it is asynchronous: wait a while)
+		for dl := time.Now().Add(1500 * time.Millisecond); time.Now().Before(dl); time.Sleep(5 * time.Millisecond) {
+			exp.mu.Lock()
+			n := len(exp.batches)
+			exp.mu.Unlock()
+			if n > 0 {
+				res.Triggered = true
+				break
+			}
+		}
+	}
 	if err := p.ForceFlush(ctx); err != nil {
 		res.ExpErr = "forceflush: " + err.Error()
 	}
